@@ -98,8 +98,8 @@ let pfff : n -> n = fun _ -> n_of_int 255
 let chunks_of (evs : event list) : string =
   let b = Buffer.create 64 in
   List.iter (function
-      | EWrite l | EBlock (_, l) -> Buffer.add_string b (string_of_int (List.length l)); Buffer.add_char b ','
-      | EPad k -> Buffer.add_string b ("p" ^ string_of_int (int_of_n k)); Buffer.add_char b ','
+      | EWrite l | EBlock (_, l) | EItem (_, l) -> Buffer.add_string b (string_of_int (List.length l)); Buffer.add_char b ','
+      | EPad (_, k) -> Buffer.add_string b ("p" ^ string_of_int (int_of_n k)); Buffer.add_char b ','
       | EFlush -> Buffer.add_string b "F,"
       | _ -> ()) evs;
   Buffer.contents b
